@@ -249,6 +249,42 @@ def register(M):
         regp('core::num::checked_%s' % opn, checked(opn))
         regp('num::checked_%s' % opn, checked(opn))
 
+    def int_abs(m, a, k):
+        t, (w, s_) = int_info(k)
+        x = val(m, a[0])
+        if not is_sym(x):
+            if s_ and x == -(1 << (w - 1)):
+                raise Panic('attempt to negate with overflow')
+            return abs(x)
+        zx = to_bv(x, w)
+        if truth(m, zx == z3.BitVecVal(-(1 << (w - 1)), w), 'abs overflow'):
+            raise Panic('attempt to negate with overflow')
+        return z3.simplify(z3.If(zx < 0, -zx, zx))
+
+    def int_signum(m, a, k):
+        t, (w, s_) = int_info(k)
+        x = val(m, a[0])
+        if not is_sym(x):
+            return (x > 0) - (x < 0)
+        zx = to_bv(x, w)
+        return z3.If(zx > 0, z3.BitVecVal(1, w), z3.If(zx < 0, z3.BitVecVal(-1, w), z3.BitVecVal(0, w)))
+
+    def int_sign_test(neg):
+        def h(m, a, k):
+            t, (w, s_) = int_info(k)
+            x = val(m, a[0])
+            if not is_sym(x):
+                return (x < 0) if neg else (x > 0)
+            zx = to_bv(x, w)
+            return (zx < 0) if neg else (zx > 0)
+        return h
+    for nm, fn in (('abs', int_abs), ('signum', int_signum), ('is_negative', int_sign_test(True)), ('is_positive', int_sign_test(False))):
+        for t in INTS:
+            regp('core::num::%s::%s' % (t, nm), fn)
+            regp('%s::%s' % (t, nm), fn)
+        regp('core::num::%s' % nm, fn)
+        regp('num::%s' % nm, fn)
+
     def minmax(which):
         def h(m, a, k):
             x, y = val(m, a[0]), val(m, a[1])
@@ -769,6 +805,25 @@ def register(M):
         return UNIT
     for t in ('Vec', '[array]', 'slice'):
         reg(t, None, 'sort_by_key', vec_sort_by_key)
+
+    def slice_chunks(exact):
+        def h(m, a, k):
+            v = val(m, a[0])
+            n = val(m, a[1])
+            if is_sym(n) or n <= 0:
+                raise NotEncodable('chunks(symbolic or zero)')
+            items = list(v.fields)
+            out = []
+            for i in range(0, len(items), n):
+                part = items[i:i + n]
+                if exact and len(part) < n:
+                    break
+                out.append(Ref(Cell(Adt('[array]', 0, part))))
+            return seq_iter(out)
+        return h
+    for t in ('Vec', '[array]', 'slice'):
+        reg(t, None, 'chunks', slice_chunks(False))
+        reg(t, None, 'chunks_exact', slice_chunks(True))
 
     def vec_dedup(m, a, k):
         r = innermost_ref(m, a[0])
